@@ -566,6 +566,16 @@ def r4_formatters(ctx: Ctx) -> None:
                     if not ok:
                         bad += 1
                         ctx.fail('C03.R4', f, f'dunder:{n.attr}', f'dunder attribute read {src(n)[:60]!r} in the evaluator', n)
+    # the modules that hand rule / view text to the evaluator must not use that text as a format template either
+    # (a tag such as `x-{txn.__class__}` expanded with str.format walks attributes outside the whitelist)
+    for short in ('merchant_engine', 'merchant_utils', 'section_engine'):
+        mi2 = proj.module(short)
+        for f in [x for x in proj.all_funcs() if x.module is mi2]:
+            for n in own_nodes(f.node):
+                if isinstance(n, ast.Call) and isinstance(n.func, ast.Attribute) and n.func.attr in ('format', 'format_map') and not isinstance(n.func.value, (ast.Constant, ast.JoinedStr)):
+                    bad += 1
+                    ctx.fail('C03.R4', f, f'format:{src(n.func.value)[:30]}', f'{src(n)[:70]!r}: text taken from a rules / views file is used as a str.format template; its fields '
+                             f'(`{{txn.__class__}}`, `{{txn.__init__.__globals__[…]}}`) read arbitrary attributes of the objects passed in, outside the expression whitelist', n)
     if not bad:
         ctx.ok('C03.R4', EP, f'{n_attr} attribute reads: no str.format on computed receivers, no dunder reads besides type(x).__name__', construct='formatters')
     # string methods on user values: literal attribute calls chosen by literal comparisons
